@@ -25,6 +25,9 @@ Atoms == <<
     Syn(Sc("null", JNull, NoSym)), Syn(Sc("null", JNull, JStr("nil"))),
     Syn(Sc("any", JArr(<<JNum("1"), JStr("a")>>), NoSym)), Syn(Sc("any", JObj(<<"a">>, <<JNum("1")>>), NoSym)),
     Syn(Sc("any", JObj(<<"a", "b">>, <<JStr("x"), JNum("1")>>), NoSym)),
+    \* members that are present but null / false / empty: presence is not truth
+    Syn(Sc("any", JObj(<<"a", "b">>, <<JNull, JNum("1")>>), NoSym)), Syn(Sc("any", JObj(<<"a", "b">>, <<JFalse, JStr("")>>), NoSym)),
+    Syn(Sc("any", JArr(<<JNull, JNum("0")>>), NoSym)),
     Raw("abc", BitsABC), [Raw("abc", BitsABC) EXCEPT !.sym = JStr("sym")], Raw("a`", "011000010110"),
     Syn(U5), Syn(Sc("str", JStr("five"), NoSym)), [U5 EXCEPT !.desc = "five things"], [U5five EXCEPT !.desc = "five things"]
 >>
